@@ -239,7 +239,7 @@ Proof.
   all: try (apply render_render_brel; exact H).
   all: try (apply render_call_brel; exact H).
   all: try (apply block_brel; exact H).
-  - (* assign *) destruct (ev c e); apply brel_mk.
+  - (* assign *) destruct (ev c e) as [v| | |]; try apply brel_mk. destruct (has_forloop v); apply brel_mk.
   - (* capture: rendered into its own buffer *)
     destruct (st (block g rec body c {| text := []; null := false |})); apply brel_mk.
   - destruct (ev c c0); try apply brel_mk.
